@@ -6,6 +6,7 @@ CMF = "litedram/common.py"
 RFF = "litedram/core/refresher.py"
 XBF = "litedram/core/crossbar.py"
 DMF = "litedram/frontend/dma.py"
+MDF = "litedram/modules.py"
 
 
 def M(id, prop, ob, file, old, new, expect="refuted", **kw):
@@ -82,4 +83,20 @@ MUTANTS = [
     M("c12.4-fork", "C12", "C12.4", DMF, "fifo.sink.valid.eq(sink.valid & cmd.ready),", "fifo.sink.valid.eq(sink.valid),"),
     B("c12-twin-order", "C12", DMF, "cmd.valid.eq(enable & sink.valid & res_fifo.sink.ready),", "cmd.valid.eq(res_fifo.sink.ready & enable & sink.valid),"),
     B("c12-twin-helper", "C12", DMF, "sink.ready.eq(enable & cmd.ready & res_fifo.sink.ready),", "sink.ready.eq(can_issue & cmd.ready),\n            can_issue.eq(enable & res_fifo.sink.ready),"),
+    # ---- C16 ----
+    M("c16.1-round", "C16", "C16.1", MDF, "return rounding(t/clk_period_ns)", "return round(t/clk_period_ns)"),
+    M("c16.1-default-floor", "C16", "C16.1", MDF, "def ns_to_cycles(self, t, margin=True, rounding=ceil):", "def ns_to_cycles(self, t, margin=True, rounding=floor):"),
+    M("c16.1-ck-floor", "C16", "C16.1", MDF, "return ceil(c/self.rate_frac.denom)", "return c//self.rate_frac.denom"),
+    M("c16.1-min", "C16", "C16.1", MDF, "return max(self.ck_to_cycles(timing.ck), self.ns_to_cycles(timing.ns, **kwargs))", "return min(self.ck_to_cycles(timing.ck), self.ns_to_cycles(timing.ns, **kwargs))"),
+    M("c16.2-nomargin-trcd", "C16", "C16.2", MDF, 'tRCD  = self.ck_ns_to_cycles(self.get("tRCD")),', 'tRCD  = self.ck_ns_to_cycles(self.get("tRCD"), margin=False),'),
+    M("c16.2-half-margin", "C16", "C16.2", MDF, "return clk_period_ns * (1 - frac.num/frac.denom)", "return clk_period_ns * (1 - frac.num/frac.denom) / 2"),
+    M("c16.2-margin-default", "C16", "C16.2", MDF, "def ns_to_cycles(self, t, margin=True, rounding=ceil):", "def ns_to_cycles(self, t, margin=False, rounding=ceil):"),
+    M("c16.3-trefi-ceil", "C16", "C16.3", MDF, "margin=False, rounding=floor),", "margin=False),"),
+    M("c16.3-trefi-margin", "C16", "C16.3", MDF, "margin=False, rounding=floor),", "rounding=floor),"),
+    M("c16.4-trc", "C16", "C16.4", MDF, 'self.ck_ns_to_cycles(self.get("tRP") + self.get("tRAS")),', 'self.ck_ns_to_cycles(self.get("tRAS")),'),
+    M("c16.4-swap", "C16", "C16.4", MDF, 'tWR   = self.ck_ns_to_cycles(self.get("tWR")),', 'tWR   = self.ck_ns_to_cycles(self.get("tWTR")),'),
+    M("c16.5-override", "C16", "C16.5", MDF, "class MT48LC4M16(SDRModule):\n", "class MT48LC4M16(SDRModule):\n    def ns_to_cycles(self, t, margin=True):\n        return int(t*self.clk_freq/1e9)\n"),
+    M("c16.6-spd-round", "C16", "C16.6", MDF, "trcd_min = self.txx_ns(mtb=b[18], ftb=b[36])", "trcd_min = round(self.txx_ns(mtb=b[18], ftb=b[36]))"),
+    B("c16-twin-order", "C16", MDF, "return max(self.ck_to_cycles(timing.ck), self.ns_to_cycles(timing.ns, **kwargs))", "return max(self.ns_to_cycles(timing.ns, **kwargs), self.ck_to_cycles(timing.ck))"),
+    B("c16-twin-period", "C16", MDF, "        t += self.margin if margin else 0\n        return rounding(t/clk_period_ns)", "        if margin:\n            t = t + self.margin\n        return rounding(t/clk_period_ns)"),
 ]
